@@ -203,6 +203,7 @@ func genStep(rt *rapid.T, p *Profile, cfg *Config, i int) Step { //nolint:cyclop
 			st.Life = int64(rapid.Uint32().Draw(rt, "lifeR"))
 		}
 		st.Retx = rapid.IntRange(0, 5).Draw(rt, "retx") == 0
+		st.RespLost = rapid.IntRange(0, 9).Draw(rt, "allocRespLost") == 0
 		if p.Odd {
 			if rapid.IntRange(0, 7).Draw(rt, "txfrom") == 0 {
 				st.TxFrom = rapid.IntRange(1, nc).Draw(rt, "txFromC")
@@ -217,7 +218,9 @@ func genStep(rt *rapid.T, p *Profile, cfg *Config, i int) Step { //nolint:cyclop
 		if rapid.IntRange(0, 5).Draw(rt, "lifeRandom") == 0 {
 			st.Life = int64(rapid.Uint32().Draw(rt, "lifeR"))
 		}
-		if p.Odd && rapid.IntRange(0, 5).Draw(rt, "rfam") == 0 {
+		if rapid.IntRange(0, 7).Draw(rt, "rfam") == 0 || (p.Odd && rapid.IntRange(0, 5).Draw(rt, "rfamOdd") == 0) {
+			// REQUESTED-ADDRESS-FAMILY in a Refresh: matching (ignored), mismatching (443) or unknown (error) -
+			// a refused Refresh must leave the lifetime alone
 			st.Fam = rapid.IntRange(1, 3).Draw(rt, "fam")
 		}
 	case "CreatePermission":
@@ -226,6 +229,10 @@ func genStep(rt *rapid.T, p *Profile, cfg *Config, i int) Step { //nolint:cyclop
 			st.P = append(st.P, peer("p"))
 		}
 		st.RespLost = rapid.IntRange(0, 11).Draw(rt, "respLost") == 0
+		if k > 0 && rapid.IntRange(0, 15).Draw(rt, "truncFirst") == 0 {
+			st.Opt, st.RespLost = "trunc-first", false
+			st.Seed = rapid.Uint64Range(0, 1<<20).Draw(rt, "truncSeed")
+		}
 	case "ChannelBind":
 		st.P = []int{peer("p")}
 		st.Ch = rapid.OneOf(rapid.IntRange(0, 2), rapid.IntRange(0, len(ChannelSlots)-1)).Draw(rt, "ch")
